@@ -297,7 +297,7 @@ var PowerVectors = [][]int64{{10, 10, 10}, {1, 1, 1}, {1, 1}, {34, 33, 33}, {50,
 func init() {
 	Register("C02", MultiRunner(func(tier string) ([]MultiCase, []string) {
 		var cases []MultiCase
-		depth, dl := 4, 12*time.Second
+		depth, dl := 4, 40*time.Second
 		if tier == "thorough" {
 			depth, dl = 6, 3*time.Minute
 		}
